@@ -28,8 +28,17 @@ def rtyStr : RTy → String
       ",".intercalate (args.map fun a => a.1 ++ ":" ++ tyStr a.2) ++ ")" ++
       (match ret with | some r => "->" ++ tyStr r | none => "")
 
+/-- split a character list at every `'\n'` (always at least one piece) -/
+def splitNl : List Char → List (List Char)
+  | [] => [[]]
+  | c :: cs =>
+    if c = '\n' then [] :: splitNl cs
+    else match splitNl cs with
+      | [] => [[c]]
+      | l :: ls => (c :: l) :: ls
+
 /-- `str::split('\n')` on a doc string -/
-def strLines (s : String) : List String := s.splitOn "\n"
+def strLines (s : String) : List String := (splitNl s.toList).map String.ofList
 
 def docLines (doc : Option String) : List String :=
   match doc with | some d => strLines d | none => []
